@@ -36,6 +36,57 @@ from ref import wasmbin
 PROPERTY = "C21"
 LEVEL = "model_checking"
 JOB_TIMEOUT = {"quick": 280, "thorough": 1500}
+BOUNDS = {
+    "quick": {
+        "module shapes": "8 shapes built with ppci's component API (consts, memops, control: block/loop/if/else/br/br_if/br_table/"
+                         "return, globs, tables: table+elem+call_indirect, imports: func/table/memory/global+start, nomax, "
+                         "datacount) + the modules ppci's C->IR->wasm path produces for 4 corpus programs (arith, while_sum, "
+                         "global_array, switch); 3..123 immediates per module",
+        "immediates": "ALL numeric immediates symbolic at once. i32.const [-2**31, 2**31), i64.const [-2**63, 2**63), every u32 "
+                      "field (type/func/local/global/label index, memarg align and offset, limits min/max, element function "
+                      "index, datacount) [0, 2**32), data bytes [0, 256).  Per harness the FOCUS immediates range over the whole "
+                      "type (the real LEB encoder forks into every length), every other immediate over one LEB-length class "
+                      "(class of the witness value, or drawn per profile)",
+        "focus sets": "API shapes: every immediate alone + 2 pairs; compiled shapes: one immediate per kind of place "
+                      "(definition class / opcode / operand position) + 1 pair; 3 random length-class profiles per shape",
+        "over-long LEB": "every u32 immediate and 2 signed immediates per shape encoded in exactly k bytes, k in {2, 5} "
+                         "(i64: 3, 10); one variant with all size/count fields 5 bytes wide",
+    },
+    "thorough": {
+        "module shapes": "the 8 API shapes + every program of corpus/cprogs.py the C->IR->wasm path accepts",
+        "immediates": "as quick",
+        "focus sets": "every immediate alone in the API shapes and in 6 compiled shapes, 2 immediates per kind of place in the "
+                      "other compiled shapes; API shapes: every pair except i64 x i32 / i64 x i64; compiled shapes: 6 pairs; "
+                      "12 random length-class profiles per shape",
+        "over-long LEB": "k in {2, 3, 4, 5} (i64: 3, 6, 8, 10); every signed immediate (groups of 3) at k = 5/10 and "
+                         "k = 3/9 with all size/count fields 5 bytes wide",
+    },
+}
+OUTSIDE = [
+    "TEXT half of C21 (to_string / text parser): the value crosses str(), float repr and a regex tokenizer implemented in C; "
+    "a symbolic value cannot pass -- not claimed",
+    "reference engine / reference assembler comparison (wasmtime, wabt): not installed -- not claimed",
+    "float immediates f32.const / f64.const (struct 'f' / 'd' are not modelled): present in shapes, kept concrete",
+    "module shapes outside the stated family; three or more immediates ranging over their whole types at the same time "
+    "(lengths of all immediates do vary together through the length-class profiles)",
+    "post-MVP encodings (passive / declarative segments, multi-memory, reference types, block type indices, SIMD, "
+    "memory.init / data.drop operands, custom and name sections)",
+    "validity of the module (index in range, alignment <= natural alignment, min <= max): reader and writer do not "
+    "validate; the claim ranges over every u32 instead (a superset of the valid values)",
+]
+ASSUMPTIONS = [
+    "the binary format is the one of the WebAssembly core specification section 5, restated in ref/wasmbin.py (encoder with "
+    "shortest LEB128 + section walker; no ppci import); its opcode table is spot-checked by assertions",
+    "shim: BytesIO: io.BytesIO is replaced (module global of ppci.wasm.components / binary.reader / binary.writer) by a "
+    "list-backed work-alike with read(n) / write(b) / getvalue / tell / seek over byte strings with symbolic elements",
+    "identifiers ('$name' ids of definitions, params, locals, labels) are documentation: the binary format carries indices "
+    "only; an integer id must come back unchanged, a name is not compared",
+    "the Python class used for block/loop/if (Instruction vs BlockInstruction) and the position of a definition among "
+    "definitions of other classes are representation, not content",
+]
+SHIMS_USED = ["isinstance", "bytes", "int", "bool", "struct", "range"]
+RULE = ("one evaluation = one batch of harnesses of one module shape (each harness: all paths of the real writer + reader "
+        "for all immediate values in the stated ranges); non-trivial = a harness explored more than one path")
 
 U32 = (0, (1 << 32) - 1)
 I32 = (-(1 << 31), (1 << 31) - 1)
@@ -271,7 +322,7 @@ def classes(kind):
             out.append((low, mid - 1))          # n bytes only because of the sign bit
             out.append((-hi, -mid - 1))
             out.append((-mid, -low - 1))
-    return out
+    return [(lo, hi) for lo, hi in out if lo <= hi]      # (i64, 10 bytes: only the sign-bit classes exist)
 
 
 def class_of(kind, v):
@@ -419,6 +470,9 @@ def symbolize(m, S):
 # ---------------------------------------------------------------------------------------------------------
 # snapshots: every slot of every component as plain data
 def _id(x):
+    # ppci2wasm uses a Ref (index + name) as the id of an imported function: its index is the id
+    if hasattr(x, "space") and hasattr(x, "index"):
+        x = x.index if x.index is not None else x.name
     return ("id", x)
 
 
@@ -484,7 +538,17 @@ def snap_full(m):
 
 
 def same(a, b):
-    """field-by-field equality of two full snapshots (a = original, b = read back) -> bool / SymBool.
+    """equality of two modules' full snapshots (a = original, b = read back) -> bool / SymBool: the definitions of each
+    class in their order (the position of a definition among definitions of OTHER classes is not content: every class
+    has its own section / index space), each compared field by field."""
+    ca = sorted(set(c for c, _ in a))
+    if ca != sorted(set(c for c, _ in b)):
+        return False
+    return sym_and(*[_same([v for c, v in a if c == cls], [v for c, v in b if c == cls]) for cls in ca]) if ca else True
+
+
+def _same(a, b):
+    """field-by-field equality of snapshot parts (a = original, b = read back) -> bool / SymBool.
     Identifiers: the binary format carries indices only; an original NAME ('$x') is documentation and is not compared,
     an original integer id must come back unchanged."""
     if isinstance(a, tuple) and len(a) == 2 and a[0] == "id":
@@ -496,11 +560,11 @@ def same(a, b):
     if isinstance(a, dict):
         if not isinstance(b, dict) or set(a) != set(b):
             return False
-        return sym_and(*[same(a[k], b[k]) for k in a]) if a else True
+        return sym_and(*[_same(a[k], b[k]) for k in a]) if a else True
     if isinstance(a, (list, tuple)):
         if not isinstance(b, (list, tuple)) or len(a) != len(b):
             return False
-        return sym_and(*[same(x, y) for x, y in zip(a, b)]) if a else True
+        return sym_and(*[_same(x, y) for x, y in zip(a, b)]) if a else True
     if isinstance(a, float) or isinstance(b, float):
         return isinstance(a, float) and isinstance(b, float) and (a == b or (a != a and b != b))
     if a is None or b is None:
@@ -587,6 +651,7 @@ class _WasmHarness(Harness):
                     "ppci.format.io")
     max_paths = 3000
     max_decisions = 6000
+    choose_limit = 256          # a reader that dispatches on an immediate's byte forks over its values instead of escaping
     timeout_ms = 20000
     prove_timeout_ms = 60000
 
@@ -627,30 +692,41 @@ class RoundTrip(_WasmHarness):
     def run(self, i):
         from ppci.wasm import Module
         m = i["m"]
-        r = dict(failed=None, exc=None, w=None, w2=None, back=None)
-        if _stage(r, "w", m.to_bytes):                                   # write
-            if _stage(r, "back", lambda: Module(r["w"])):               # read
-                m2 = r["back"]
-                r["back"] = snap_full(m2)
-                _stage(r, "w2", m2.to_bytes)                             # write again
+        r = dict(failed=None, exc=None, w=None, w2=None, back=None, spec_conform=None)
+        if not _stage(r, "w", m.to_bytes):                               # write
+            return r
+        # (a') the written bytes against the specification's encoding, section by section.  Decided HERE (one engine
+        # decision: both outcomes become paths) because only spec-conform bytes are canonical input for the reader;
+        # a writer that emits anything else is reported through a' and never reaches (a)/(b) on that path.
+        desc = describe(snap_full(m))
+        spec = wasmbin.encode_module(desc)
+        chk, secs = wasmbin.walk(r["w"])
+        _c2, secs2 = wasmbin.walk(spec)
+        conform = sections_eq(r["w"], secs, spec, secs2) if chk["sections-tile-buffer"] else False
+        r["spec_conform"] = True if conform is True else (False if conform is False else bool(conform))
+        if not r["spec_conform"]:
+            return r
+        if _stage(r, "back", lambda: Module(r["w"])):                   # read
+            m2 = r["back"]
+            r["back"] = snap_full(m2)
+            _stage(r, "w2", m2.to_bytes)                                 # write again
         return r
 
     def post(self, i, out):
         if not out.ok:
             return {"harness-runs": False}
         o = out.value
-        full = snap_full(i["m"])
-        desc = describe(full)
         res = {"write-accepts-module": o["w"] is not None}
         if o["w"] is None:
             return res
-        spec = wasmbin.encode_module(desc)
-        chk, secs = wasmbin.walk(o["w"], wasmbin.expected_counts(desc))
-        _c2, secs2 = wasmbin.walk(spec)
-        res["a':writer-emits-spec-encoding-per-section"] = sections_eq(o["w"], secs, spec, secs2) \
-            if chk["sections-tile-buffer"] else False
+        full = snap_full(i["m"])
+        desc = describe(full)
+        chk, _secs = wasmbin.walk(o["w"], wasmbin.expected_counts(desc))
+        res["a':writer-emits-spec-encoding-per-section"] = o["spec_conform"]
         for k, v in chk.items():
             res["c:" + k] = v
+        if not o["spec_conform"]:
+            return res
         res["a:reader-accepts-written-bytes"] = o["failed"] != "back"
         if o["failed"] == "back":
             return res
@@ -810,7 +886,7 @@ def _chunks(lst, n):
     return [lst[i:i + n] for i in range(0, len(lst), n)]
 
 
-_FORKS = {"u32": 5, "i32": 9, "i64": 19}      # paths of the real LEB encoder over the whole type
+_FORKS = {"u32": 5, "i32": 18, "i64": 38}      # paths of the real LEB encoder over the whole type
 
 
 def _cost(spec, kinds):
@@ -848,6 +924,8 @@ def jobs(tier, seed):
     rng = random.Random(f"C21/{tier}/{seed}")
     quick = tier == "quick"
     cshapes = list(C_SHAPES_QUICK) if quick else c_shapes_all()
+    others = [c for c in cshapes if c not in C_SHAPES_QUICK]
+    full_c = set(C_SHAPES_QUICK) | set(rng.sample(others, min(2, len(others))))
     js = []
     for sh in API_SHAPES + cshapes:
         kinds = slot_kinds(sh)
@@ -855,15 +933,17 @@ def jobs(tier, seed):
         n = len(kinds)
         compiled = sh.startswith("c:")
         specs = []
-        # -- every immediate once over its whole range (quick, compiled shapes: one representative per kind of place,
-        #    drawn by the seed)
-        if quick and compiled:
+        # -- every immediate once over its whole range.  Compiled shapes repeat the same few kinds of place many times:
+        #    quick takes one representative per kind of place (definition class / opcode / operand position, drawn by
+        #    the seed); thorough takes every immediate for 6 programs and 2 representatives per kind for the others
+        if compiled and (quick or sh not in full_c):
             rep = {}
             order = list(range(n))
             rng.shuffle(order)
             for k in order:
-                rep.setdefault(sigs[k], k)
-            singles = sorted(rep.values())
+                if len(rep.setdefault(sigs[k], [])) < (1 if quick else 2):
+                    rep[sigs[k]].append(k)
+            singles = sorted(k for v in rep.values() for k in v)
         else:
             singles = list(range(n))
         specs += [["rt", sh, [k], 0] for k in singles]
@@ -873,10 +953,12 @@ def jobs(tier, seed):
         # -- pairs of immediates over their whole ranges (two lengths vary independently inside one body / section)
         pairs = [(a, b) for a in range(n) for b in range(a + 1, n)]
         if quick:
-            pairs = [pq for pq in pairs if "i64" not in (kinds[pq[0]], kinds[pq[1]])]
+            pairs = [pq for pq in pairs if _FORKS[kinds[pq[0]]] * _FORKS[kinds[pq[1]]] <= (25 if compiled else 90)]
             pairs = rng.sample(pairs, min(1 if compiled else 2, len(pairs)))
-        elif compiled:
-            pairs = rng.sample(pairs, min(6, len(pairs)))
+        else:
+            pairs = [pq for pq in pairs if _FORKS[kinds[pq[0]]] * _FORKS[kinds[pq[1]]] <= 400]
+            if compiled:
+                pairs = rng.sample(pairs, min(6, len(pairs)))
         specs += [["rt", sh, [a, b], 0] for a, b in pairs]
         # -- over-long encodings
         signed = [k for k, kd in enumerate(kinds) if kd != "u32"]
